@@ -47,12 +47,12 @@ Definition Yspec (l : nat) (m : Z) (th ph : R) : R := Flm l (Z.abs_nat m) ph * a
 (* Legendre polynomials (for the addition theorem, l <= 3) *)
 Definition Pleg (l : nat) (x : R) : R :=
   match l with
-  | 0 => 1
-  | 1 => x
-  | 2 => (3 * x ^ 2 - 1) / 2
-  | 3 => (5 * x ^ 3 - 3 * x) / 2
+  | O => 1
+  | S O => x
+  | S (S O) => (3 * x ^ 2 - 1) / 2
+  | S (S (S O)) => (5 * x ^ 3 - 3 * x) / 2
   | _ => 0
-  end%nat.
+  end.
 
 (* cosine of the angle between the directions (th1, ph1) and (th2, ph2) *)
 Definition cosgamma (th1 ph1 th2 ph2 : R) : R := cos ph1 * cos ph2 + sin ph1 * sin ph2 * cos (th1 - th2).
